@@ -195,17 +195,29 @@ CHECK_NOTE = ("Trusted: Coq 8.16.1 kernel incl. vm_compute (no native_compute); 
 
 CLAIMS.update({
     "C09": dict(
-        text="PARTIAL (static half). Proved for all programs (C09_accepted_is_sched_safe): acceptance implies productionTask "
+        text="PARTIAL. Static half, proved for all programs (C09_accepted_is_sched_safe): acceptance implies productionTask "
              "exists, every task call - at any nesting, in Parallel blocks and in parallel loops - names a defined task with "
              "matching arity, parallel loops are a single call, variable parameters are declared, no task call leads back to the "
              "calling task (finite unfolding) and loop limits resolve to a number. This was refuted before the repairs of D8 "
              "(recursion), D9 (parallel-loop call) and D10 (limits) in /repo. Still refuted: guards are not type checked "
              "(C09_accepted_guards_typed_refuted, known finding D12b: a string as condition is accepted and raises TypeError at "
-             "run time). The run-time half (sched_safe => no exception, order completes) is the hypothesis interface of the "
-             "RefSem/NetModel theorems (C01) and is exercised here on the implementation: every accepted member of the "
+             "run time). Run-time half, proved on the reference semantics (Properties/C09runtime.v): an accepted program unfolds "
+             "for every fuel above an explicit bound (C09_accepted_unfolds: construction does not fail, no unbounded recursion); "
+             "with typed guards and limits (guards_typed = the D12b guard; limits_typed and no_string_order, proved for every "
+             "wf_dec program), a well-typed oracle and no division by zero every guard and limit evaluates "
+             "(C09_guards_and_limits_evaluate) and NO run - any set of immediate completions, any script of API calls whose "
+             "detach calls target attached observers, any fuel - ends in an exception or Unsupported "
+             "(C09_run_never_raises_partial; the only exception possible without the division guard is ZeroDivisionError: "
+             "C09_run_raises_only_zero_division), and the order completes exactly when nothing is outstanding "
+             "(C09_order_completes, from the C01 theorem). REFUTED without the division guard "
+             "(C09_division_by_zero_refuted) - and the implementation behaves the same: known finding D18, an accepted "
+             "program whose guard divides by a supplied 0 lets ZeroDivisionError escape fire_event. On the fragment of "
+             "Properties/Refinement.v these statements transfer to the faithful net model. The run-time half is also "
+             "exercised on the implementation: every accepted member of the "
              "well-formed family, of the single-fault mutants and of the near-valid variants is constructed, started and driven "
              "to the end with well-typed values in a random completion order.",
-        technique="Coq proof (contrapositives of the C10 rejection theorems) + vm_compute refutation witness + driving "
+        technique="Coq proof (contrapositives of the C10 rejection theorems; type soundness of guard / limit evaluation; a "
+                  "no-failure invariant through the interpreter and over scripts) + vm_compute refutation witnesses + driving "
                   "accepted programs on the implementation + differential correspondence of the validator",
         design_ref="DESIGN.md §9 C09, docs/check_component.md", note=CHECK_NOTE),
     "C10": dict(
